@@ -27,6 +27,7 @@ func tape(seed uint64) *simrt.Config {
 		c.Picks = append(c.Picks, uint32(r.u64()%16))
 		c.Edges = append(c.Edges, uint32(r.u64()%2))
 		c.Perms = append(c.Perms, uint32(r.u64()))
+		c.RMWs = append(c.RMWs, uint32(r.u64()%2))
 	}
 	return c
 }
@@ -78,12 +79,15 @@ func main() {
 		{"sendpanics", func() string { return lib.SendPanics() }, "send on closed channel"},
 		{"mapmutate", func() string { return lib.MapMutate() }, ""},
 		{"handoff", func() string { return fmt.Sprint(lib.Handoff()) }, "42"},
+		{"lockedupdate", func() string { a, b := lib.LockedUpdate(5); return fmt.Sprint(a, b) }, "10 10"},
+		{"rmwforms", func() string { return lib.RMWForms() }, "16 420abc[1 2 3 4] 4 20"},
+		{"lostupdate", func() string { a, b := lib.LostUpdate(4); return fmt.Sprint(a < 4 || b < 4) }, ""},
 		{"racy", func() string { return fmt.Sprint(lib.Racy()) }, ""},
 		{"leak", func() string { return fmt.Sprint(lib.Leak()) }, "1"},
 		{"dead", func() string { return fmt.Sprint(lib.Dead()) }, ""},
 	}
 	for _, c := range cases {
-		if *which == "all" && (c.name == "leak" || c.name == "dead" || c.name == "racy") {
+		if *which == "all" && (c.name == "leak" || c.name == "dead" || c.name == "racy" || c.name == "lostupdate") {
 			continue
 		}
 		if *which != "all" && *which != c.name {
